@@ -120,7 +120,13 @@ func genConfig(r *rng) cfgCase {
 		c.expect, c.kind = "either", "out-of-range-or-wrong-type"
 		c.params["judged"] = 0
 		haveNet, haveMedia = true, true
-		switch r.intn(14) {
+		switch r.intn(16) {
+		case 14:
+			netLines = append(netLines, fmt.Sprintf("preload_amount = %d", []int{1000000000000000, 9223372036854775807, 4294967296}[r.intn(3)]))
+			c.kind = "huge-preload"
+		case 15:
+			netLines = append(netLines, "preload_amount = 2000000")
+			c.kind = "huge-preload"
 		case 0:
 			netLines = append(netLines, "cache_size = 0")
 			c.kind = "cache_size=0"
@@ -159,7 +165,7 @@ func genConfig(r *rng) cfgCase {
 			haveFeeds = false
 			c.kind = "wrong-type"
 		case 12:
-			netLines = append(netLines, "preload_amount = 40")
+			netLines = append(netLines, fmt.Sprintf("preload_amount = %d", []int{40, 200, 1000}[r.intn(3)]))
 			c.kind = "large-preload"
 		case 13:
 			mediaLines = []string{"hook = [\"%url\"]"}
@@ -242,7 +248,7 @@ func planC19(tier string, seed uint64) *Plan {
 	p := &Plan{
 		Level: "exploration",
 		Rule: "seeded TOML files over the documented keys: valid in-range files with any subset of tables/keys in either order (must be accepted and behave as configured or as the documented defaults: timeout observed on a silent server in virtual time, preload observed as items fetched ahead of the cursor, hook observed as the recorded argv, colours observed as SGR parameters), files with a syntax error, an unknown key/table or a malformed colour (must be rejected at start-up with a diagnostic naming the file), and out-of-range or wrongly typed values (cache_size<=0, hook=[], negative preload/timeout, strings for numbers, huge integers: either outcome, but an accepted file must survive a mixed simulated session: fetches incl. a stall, feeds, key presses, external open). One worker process per file runs the real config.init(). Non-trivial = every file; distinct = distinct (file, session) fingerprint.",
-		Assumptions: []string{"the absent-file case is exercised as a file-less XDG_CONFIG_HOME", "very large preload_amount values (>40) are not generated: they make every frame iterate the whole range, which is slowness rather than a crash"},
+		Assumptions: []string{"the absent-file case is exercised as a file-less XDG_CONFIG_HOME", "a frozen interface (every frame iterating an absurd preload range) is treated like a crash: the worker is killed by the wall-clock watchdog and the wedge must reproduce"},
 	}
 	n := 160
 	if tier == "thorough" {
